@@ -1,0 +1,7 @@
+//go:build !verif
+
+package fun
+
+import "context"
+
+func verifAt(context.Context, string, ...any) {}
